@@ -276,6 +276,10 @@ class World:
                     return 'ok', None
         except ValueError as e:
             return 'ValueError', str(e)
+        except (Mismatch, core.MachineryError):
+            raise
+        except Exception as e:  # the real operation failed in a way the spec does not know
+            raise Mismatch('exception', '%s: %s' % (type(e).__name__, e), l['res'])
         raise core.MachineryError('unknown Env operation %r' % (op,))
 
 
@@ -286,7 +290,12 @@ def apply_delta(exp, o):
 
 
 def compare_obs(world, exp):
-    got = world.observe()
+    try:
+        got = world.observe()
+    except (Mismatch, core.MachineryError):
+        raise
+    except Exception as e:  # e.g. has_LP says yes but the cache has no such entry
+        raise Mismatch('exception-observing', '%s: %s' % (type(e).__name__, e), 'stored parts readable')
     keys = []
     for side in ('LP', 'RP'):
         for s in range(world.L):
